@@ -377,6 +377,10 @@ def error_mapping(ctx):
             continue
         for hd in t.handlers:
             lists = [n for st in hd.body for n in walk_local(st) if isinstance(n, ast.List) and len(n.elts) == 3]
+            if not lists:
+                # the report may be built in two steps: `report = [<class name>, <text>]` + `report.append({...})`
+                lists = [n for st in hd.body for n in walk_local(st) if isinstance(n, ast.List) and len(n.elts) == 2 and
+                         isinstance(getattr(n, 'parent', None), ast.Assign)]
             first = src(lists[0].elts[0]) if lists else None
             if hd.type is not None and dotted(hd.type) == 'SECoPError':
                 ctx.check(first == f'{hd.name}.name', f'{h.qualname}:SECoPError mapped to its class name', hd,
